@@ -53,11 +53,13 @@ THEOREMS = {
     "C15": ["Rot.C15_grid", "Rot.C15_grid_least", "Rot.C15_first_point", "Rot.C15_separates", "Rot.C15_shares",
             "Rot.C15_suffix_of_opening_instant", "Rot.C15_composes_with_C14", "Rot.C15_F9_record_anchored_breaks_grid",
             "Rot.advance_loop", "Rot.gridInv_step",
+            "Rot.C15_separates_across_restarts", "Rot.C15_not_due_across_restarts", "Rot.C15_composition_index",
+            "Rot.C15_composition_dated", "Rot.run_append",
             "Rot.C15_separates_on_schedule", "Rot.C15_not_due_on_schedule", "Rot.pre_nil_of_pos",
             "Obligations.rot_time_extraction_complete", "Obligations.rot_time_facts_hold", "Obligations.rot_advances_from_schedule",
             "Obligations.C15_extracted"],
 }
-MODULES = {"C14": ["QuillModel.Props.C14", "QuillModel.Props.C15Schedule", "QuillModel.Props.C14Dated", "QuillModel.Props.C14Render", "QuillModel.Props.C14More"], "C15": ["QuillModel.Props.C15", "QuillModel.Props.C15Schedule"]}
+MODULES = {"C14": ["QuillModel.Props.C14", "QuillModel.Props.C15Schedule", "QuillModel.Props.C14Dated", "QuillModel.Props.C14Render", "QuillModel.Props.C14More"], "C15": ["QuillModel.Props.C15", "QuillModel.Props.C15Schedule", "QuillModel.Props.C15Compose"]}
 OBLIG = {"C14": ["QuillModel.Obligations.RotSize"], "C15": ["QuillModel.Obligations.RotTime"]}
 
 C14_ORACLES = ("dup-id", "torn", "not-in-cur", "order", "not-suffix", "over-limit", "backup-bound", "backup-shrink", "ow-off-deleted")
